@@ -25,6 +25,7 @@ import (
 	"github.com/dadrus/heimdall/internal/rules/mechanisms/subject"
 
 	"github.com/dadrus/heimdall/verif/engine"
+	"github.com/dadrus/heimdall/verif/env"
 	"github.com/dadrus/heimdall/verif/hx"
 )
 
@@ -266,6 +267,21 @@ func execRotation(rc *RotationCase) (sig, summary string) {
 			if s, sum := verify(rc.Versions[i-1]+"->"+v.Name, pubs); s != "" {
 				return s, sum
 			}
+		}
+	}
+
+	// long after (the certificates of the store in effect have expired meanwhile, nothing was reloaded): what is signed is
+	// still what is published
+	last := versionByName(rc.Versions[len(rc.Versions)-1])
+	if last.Entries[0].Cert {
+		env.SetNow(env.T0.Add(2 * 365 * 24 * time.Hour))
+
+		s, sum := verify("two-years-after:"+last.Name, pubs)
+
+		env.SetNow(env.T0)
+
+		if s != "" && !strings.Contains(s, "execute-failed") && !strings.Contains(s, "sign-failed") {
+			return s, sum
 		}
 	}
 
